@@ -1,3 +1,4 @@
 pub mod layout;
 pub mod lineparse;
 pub mod retrace;
+pub mod sha1;
